@@ -22,6 +22,14 @@ SHARDS = {"quick": 8, "thorough": 16}
 BUDGET = {"quick": 25.0, "thorough": 420.0}
 REQUIRE = {
     "quick": {
+        "directed:pending_focus_then_removal": 4500,
+        "directed:walker:dictlax": 900,
+        "directed:walker:dictv1": 900,
+        "directed:walker:dictv2": 900,
+        "directed:walker:slw": 900,
+        "directed:walker:sflw": 900,
+        "walker:dictlax": 100,
+        "eval:ends_visible_no_raise": 800,
         "observer:modified_signals": 3000,
         "eval:focus_read_inside_modified_signal": 500,
         "eval:render_inside_modified_signal": 400,
@@ -104,6 +112,14 @@ REQUIRE = {
         "reach:widget.listbox.ListBox._set_focus_valign_complete": 1000
     },
     "thorough": {
+        "directed:pending_focus_then_removal": 4500,
+        "directed:walker:dictlax": 900,
+        "directed:walker:dictv1": 900,
+        "directed:walker:dictv2": 900,
+        "directed:walker:slw": 900,
+        "directed:walker:sflw": 900,
+        "walker:dictlax": 1000,
+        "eval:ends_visible_no_raise": 800,
         "observer:modified_signals": 30000,
         "eval:focus_read_inside_modified_signal": 5000,
         "eval:render_inside_modified_signal": 4000,
@@ -198,7 +214,10 @@ RULE = (
     "sequences after moving the focus to a high index, in 25% of the histories the SAME widget object placed at several "
     "positions (recipes sharing an id; op dup = w.insert(j, w[i])), in 8% a 1-3 item list around a tall unselectable item "
     "with mostly paging/scrolling keys and button-1 presses, in 7% an unfocused ListBox (rendered and clicked with focus=False) "
-    "around multi-row cursor items with set_focus/resize/button-1 presses, ListBox focus flag toggle; in 40% of the histories an application handler is connected to the walker's 'modified' signal "
+    "around multi-row cursor items with set_focus/resize/button-1 presses, ListBox focus flag toggle; a fifth walker flavour 'dictlax' whose set_focus() only records the position (ListWalker.get_focus() "
+    "answers (None, None) for a missing one); a directed, never-skipped core (every walker x 3 sizes x 2 lengths x 2 old/new pairs x "
+    "3 coming_from x 5 removals x 5 next calls): set_focus(new) then the old focus position removed / list emptied before the "
+    "next render / keypress / mouse_event / ends_visible; in 40% of the histories an application handler is connected to the walker's 'modified' signal "
     "(after the ListBox's own) which reads the focus and (30%) redraws the ListBox inside the signal; a case = the whole JSON recipe; distinct = distinct recipes; "
     "non-trivial = at least one render was judged; a history stops at its first failure; per shard the first 3 (quick) / 8 "
     "(thorough) failures of each base signature (clause + kind of mismatch or exception site) are shrunk and classified, "
@@ -413,7 +432,7 @@ def gen_case(rng, max_ops):
     if not ops or ops[-1][0] != "render":
         ops.append(["render"])
     return {
-        "walker": rng.choice(["slw"] * 3 + ["sflw"] * 3 + ["dictv2"] * 2 + ["dictv1"]),
+        "walker": rng.choice(["slw"] * 3 + ["sflw"] * 3 + ["dictv2"] * 2 + ["dictv1"] + ["dictlax"]),
         "size": [rng.randint(3, 20), rng.randint(1, 10)],
         "lbfocus": (rng.random() < 0.92) and not unfocused_mode,
         "focus0": rng.randint(0, 11) if rng.random() < 0.3 else None,
@@ -445,7 +464,7 @@ def exckind(e):
     msg = re.sub(r"<[^>]*>", "W", msg)
     msg = re.sub(r"\(?-?\d+(, ?-?\d+)*\)?", "N", msg)
     msg = re.sub(r"[^A-Za-z]+", "_", msg).strip("_")
-    entry = ("cached_render", "finalize", "render", "keypress", "mouse_event", "calculate_visible", "get_cursor_coords")
+    entry = ("cached_render", "finalize", "render", "keypress", "mouse_event", "calculate_visible", "get_cursor_coords", "ends_visible")
     names = [f.name for f in traceback.extract_tb(e.__traceback__) if "/urwid/" in f.filename and f.name not in entry]
     return f"{type(e).__name__}:{msg[:48]}|in={'>'.join(names[-2:])}"
 
@@ -488,6 +507,8 @@ class Run:
             self.walker = urwid.SimpleFocusListWalker(list(self.model))
         elif wk == "dictv2":
             self.walker = S.DictWalkerV2(list(self.model))
+        elif wk == "dictlax":
+            self.walker = S.DictWalkerLax(list(self.model))
         else:
             self.walker = S.DictWalkerV1(list(self.model))
         if case.get("focus0") is not None and self.model:
@@ -720,6 +741,12 @@ class Run:
                 lb.set_focus(pos, op[2])
             except Exception as e:  # noqa: BLE001
                 raise Failure("raise", exckind(e), f"set_focus({pos},{op[2]!r}) raised {type(e).__name__}: {e}") from None
+        elif k == "ends_visible":
+            self.count("eval:ends_visible_no_raise")
+            try:
+                lb.ends_visible(self.size, self.lbfocus)
+            except Exception as e:  # noqa: BLE001
+                raise Failure("raise", exckind(e), f"ends_visible({self.size}, {self.lbfocus}) raised {type(e).__name__}: {e}\n{traceback.format_exc(limit=8)}") from None
         elif k == "valign":
             v = op[1] if isinstance(op[1], str) else tuple(op[1])
             try:
@@ -1306,6 +1333,35 @@ def report(ctx, case, res):
     ctx.violation(sig, res2[2] + "\nstandalone: " + standalone(wit), wit)
 
 
+WALKERS = ("slw", "sflw", "dictv2", "dictv1", "dictlax")
+
+
+def directed_pending_focus_cases():
+    """never-skipped core: set_focus(new, coming_from) and then the OLD focus position is removed (or more, or the
+    whole list emptied) before the next render / keypress / mouse_event / ends_visible, for every walker flavour
+    (in particular the custom ones: validating and non-validating set_focus) at several sizes"""
+    for wk in WALKERS:
+        for size in ([10, 1], [6, 4], [20, 10]):
+            for n in (3, 8):
+                items = [{"t": "spy", "id": IDS[i], "h": 1, "sel": i % 2 == 0, "nx": 0} if i != 1 else {"t": "edit", "id": IDS[i], "lines": 1, "pos": 0} for i in range(n)]
+                for old, new in ((n - 1, 0), (1, n - 1)):
+                    for cf in (None, "above", "below"):
+                        for removal in ("old", "old+first", "old+last", "clear", "all-but-new"):
+                            if removal == "old":
+                                rm = [["delete", old]]
+                            elif removal == "old+first":
+                                rm = [["delete", old], ["delete", 0]]
+                            elif removal == "old+last":
+                                rm = [["delete", old], ["pop", -1]]
+                            elif removal == "clear":
+                                rm = [["clear"]]
+                            else:
+                                rm = [["delete", i] for i in range(n - 1, -1, -1) if i != new]
+                            for nxt in (["render"], ["key", "down"], ["key", "page up"], ["mouse", "mouse press", 1, 1, 0], ["ends_visible"]):
+                                ops = [["set_focus", old, None], ["render"], ["set_focus", new, cf], *rm, nxt, ["render"], ["key", "up"], ["render"]]
+                                yield {"walker": wk, "size": size, "lbfocus": True, "focus0": None, "observer": "none", "items": items, "ops": ops}
+
+
 def run(ctx):
     import urwid
 
@@ -1330,6 +1386,16 @@ def run(ctx):
     )
     rng = ctx.rng
     max_ops = ctx.pick(20, 50)
+    for i, case in enumerate(directed_pending_focus_cases()):
+        if not ctx.mine(i):
+            continue
+        r, res = primary(case, ctx.count)
+        ctx.count("directed:pending_focus_then_removal")
+        ctx.count("directed:walker:" + case["walker"])
+        ctx.case(json.dumps(case, sort_keys=True), nontrivial=True)
+        if res is not None:
+            ctx.count("histories_with_failure")
+            report(ctx, case, res)
     n = 0
     while ctx.more(1.0):
         n += 1
